@@ -335,11 +335,49 @@ func scripted() []core.Case {
 		b.probe(0)
 		cs = append(cs, b.done("descendant-via-foreign-output+leases"))
 	}
+	// OUTSIDE the quantifier of C01/C02/C12/C13 (no validating node emits these; the runner's tracker answers
+	// strict=0 and the property oracles stay silent; Go<->Lean correspondence is still checked on every op):
+	// (1) an unconfirmed transaction delivered although it double-spends an output a CONFIRMED transaction spends
+	//     (the store keeps no debit for the output the chain already spent; the ledger reading would list one);
+	{
+		b := newSB(2)
+		c := b.tx([]wire.OutPoint{nullOut()}, 50000)
+		a := b.tx([]wire.OutPoint{out(c, 0)}, 20000, 29000)
+		x := b.tx([]wire.OutPoint{out(a, 0)}, 19000)
+		y := b.tx([]wire.OutPoint{out(a, 0), out(a, 1)}, 48000)
+		b.conf(a, blk(1, 1), "0:0,1:1")
+		b.conf(x, blk(1, 1), "0:0")
+		b.probe(1)
+		b.seen(y, "0:0")
+		b.probe(1)
+		b.add("rollback 1")
+		b.probe(0)
+		cs = append(cs, b.done("outside-quantifier:unconfirmed-conflicts-with-confirmed"))
+	}
+	// (2) an input that names a known transaction but none of its outputs.
+	{
+		b := newSB(3)
+		p := b.tx([]wire.OutPoint{b.foreign()}, 4000, 6000)
+		t := b.tx([]wire.OutPoint{out(p, 7)}, 3500)
+		u := b.tx([]wire.OutPoint{out(p, 0)}, 3900)
+		b.conf(p, blk(1, 1), "0:0,1:0")
+		b.seen(u, "0:0")
+		b.probe(1)
+		b.seen(t, "0:0")
+		b.probe(1)
+		b.add("removeunmined %s", u.tid)
+		b.probe(1)
+		cs = append(cs, b.done("outside-quantifier:input-names-missing-output"))
+	}
 	return cs
 }
 
-// exhaustive: every consistent history of at most 5 events over a 5-transaction universe (coinbase, a chain of two,
-// a conflicting spend, an independent tx); the final state of each history is probed (prefixes are histories too).
+// exhaustive: every history of at most 5 events that passes ledger.consistent, over a 4-transaction universe
+// (coinbase, a chain of two, a conflicting spend); the final state of each history is probed (prefixes are histories
+// too).  Histories in which some event fails ledger.extra (e.g. the unconfirmed delivery of y after its rival x has
+// confirmed: no validating node emits that) lie outside the quantifier of C01/C02/C12/C13: they are kept, tagged
+// `exhaustive-outside-quantifier`, for the Go<->Lean correspondence (which holds on all inputs); the runner's own
+// tracker (r.strict) switches the property oracles off for them.
 var maxDepth = 5
 
 func exhaustive() []core.Case {
@@ -357,17 +395,21 @@ func exhaustive() []core.Case {
 	cr := map[*txDef]string{c: "0:0", a: "0:0,1:1", x: "0:0", y: "0:0"}
 	crs := map[*txDef][]credSpec{c: {{0, false}}, a: {{0, false}, {1, true}}, x: {{0, false}}, y: {{0, false}}}
 	var cases []core.Case
-	var rec func(l *ledger, lines []string, top int32, branch int, depth int)
+	var rec func(l *ledger, lines []string, top int32, branch int, depth int, strict bool)
 	clone := func(l *ledger) *ledger { return l.clone() }
-	rec = func(l *ledger, lines []string, top int32, branch int, depth int) {
+	rec = func(l *ledger, lines []string, top int32, branch int, depth int, strict bool) {
 		if depth > 0 {
+			tag := "exhaustive"
+			if !strict {
+				tag = "exhaustive-outside-quantifier"
+			}
 			ops := append(append([]string{}, header...), lines...)
 			ops = append(ops, fmt.Sprintf("probe %d", top), fmt.Sprintf("spec probe %d", top), fmt.Sprintf("inv %d", top), "refcheck")
 			for _, t := range txs {
 				ops = append(ops, "details "+hx(t.hash), "spec details "+hx(t.hash))
 			}
 			ops = append(ops, "range 0 -1", "spec range 0 -1", "range -1 0", "spec range -1 0", "dump")
-			cases = append(cases, core.Case{Ops: ops, Tags: []string{"exhaustive"}})
+			cases = append(cases, core.Case{Ops: ops, Tags: []string{tag}})
 		}
 		if depth == maxDepth {
 			return
@@ -398,6 +440,7 @@ func exhaustive() []core.Case {
 			if !l.consistent(cnd.e) {
 				continue
 			}
+			st := strict && l.extra(cnd.e)
 			n := clone(l)
 			n.apply(cnd.e)
 			nt, nb := top, branch
@@ -410,9 +453,9 @@ func exhaustive() []core.Case {
 				nt = int32(cnd.e.height) - 1
 				nb = branch + 1
 			}
-			rec(n, append(append([]string{}, lines...), cnd.line), nt, nb, depth+1)
+			rec(n, append(append([]string{}, lines...), cnd.line), nt, nb, depth+1, st)
 		}
 	}
-	rec(newLedger(), nil, 0, 0, 0)
+	rec(newLedger(), nil, 0, 0, 0, true)
 	return cases
 }
